@@ -1,6 +1,7 @@
 package rules
 
 import (
+	"go/constant"
 	"encoding/json"
 	"fmt"
 	"go/ast"
@@ -273,6 +274,14 @@ func countChecked(g *core.Graph, info *types.Info, rc readCall, at *core.GNode) 
 		}
 		switch be.Op {
 		case token.EQL, token.NEQ, token.LSS, token.GTR, token.LEQ, token.GEQ:
+			// a comparison with the constant 0 only tells "something was read", not "the buffer was filled"
+			for _, side := range []ast.Expr{be.X, be.Y} {
+				if tv, has := info.Types[side]; has && tv.Value != nil && tv.Value.Kind() == constant.Int {
+					if v, exact := constant.Int64Val(tv.Value); exact && v == 0 {
+						return false
+					}
+				}
+			}
 			return true
 		}
 		return false
